@@ -92,6 +92,29 @@ func (e *FnEnc) call(v ssa.Value, c *ssa.CallCommon, in ssa.Instruction) {
 				return
 			}
 		}
+		if name == "fmt.Errorf" && v != nil {
+			x := e.havocVal(v)
+			e.assume(not(sx("=", x.T, "0")))
+			if t, ok := e.sprintfModel(c, args); ok {
+				e.assume(sx("=", e.W.UF("errmsg", []string{"Int"}, "String", x.T), t))
+			}
+			e.note("A7 trusted contract: fmt.Errorf returns a non-nil error whose message is the formatted string")
+			return
+		}
+		if name == "path/filepath.Join" && v != nil {
+			if elems, ok := varargsElems(c.Args[0]); ok && len(elems) >= 1 {
+				t := e.val(elems[0]).T
+				for _, el := range elems[1:] {
+					t = e.W.UF("spec.joinPath", []string{"String", "String"}, "String", t, e.val(el).T)
+				}
+				if len(elems) == 1 {
+					t = e.W.UF("path.clean", []string{"String"}, "String", t)
+				}
+				e.setVal(v, t)
+				e.note("A6 library model: filepath.Join as the uninterpreted joinPath (left-nested)")
+				return
+			}
+		}
 		if name == "fmt.Sprintf" && v != nil {
 			if t, ok := e.sprintfModel(c, args); ok {
 				e.setVal(v, t)
